@@ -7,6 +7,7 @@ CONSTANT MaxCache = 0
 CONSTANT MaxGet = 1
 CONSTANT Deletes = FALSE
 CONSTANT Split = TRUE
+CONSTANT Conflicts = FALSE
 CONSTANT MaxSteps = 6
 SPECIFICATION Spec
 INVARIANT BehaviourExport
